@@ -30,3 +30,16 @@ Print Assumptions C08_truth_table.
 Theorem C08_short_headers : forall h : list N, (length h < 3)%nat -> hint h = false.
 Proof. exact hint_short. Qed.
 Print Assumptions C08_short_headers.
+
+(* ---- the same content in both modes parses to the same result: a valid one-frame stream written
+   as a single message and written delimited both decode to the events the referee assigns it ---- *)
+From PJ.Model Require Import Spec Encoder.
+From PJ.Proofs Require Import WireRT BytesE2E.
+Theorem C08_both_modes_same_result :
+  forall (f : frame) (evs : list event) (grouped : bool),
+    run_frames [f] = Valid evs -> small f -> f_rows f <> [] ->
+    let r1 := parse_stream Generic grouped false (write_single f) in
+    let r2 := parse_stream Generic grouped false (write_delimited [f]) in
+    flat_events r1 = evs /\ flat_events r2 = evs /\ pr_end r1 = PEnd /\ pr_end r2 = PEnd.
+Proof. exact both_modes_same_result. Qed.
+Print Assumptions C08_both_modes_same_result.
